@@ -140,8 +140,16 @@ class Evolver:
         if depth < 2:
             kinds += ["array", "map", "tuple", "ornull"]
             if allow_literal:
-                kinds += ["literal", "array-literal", "ornull-literal"]
+                kinds += ["literal", "array-literal", "ornull-literal", "array-ornull", "map-ornull"]
         k = force or self.pick(kinds)
+        if k in ("array-ornull", "map-ornull"):
+            inner = self.simple_type(depth + 2, allow_literal=False)
+            while inner["kind"] == "or":
+                inner = self.simple_type(depth + 2, allow_literal=False)
+            nullable = {"kind": "or", "items": [inner, {"kind": "base", "name": "null"}]}
+            if k == "array-ornull":
+                return {"kind": "array", "element": nullable}
+            return {"kind": "map", "key": {"kind": "base", "name": "string"}, "value": nullable}
         if k in ("array-literal", "ornull-literal"):
             local: set = set()
             props = [self.new_property(local, depth + 2, allow_literal=False, optional=(i >= 2)) for i in range(self.draw(st.integers(2, 3)))]
@@ -294,11 +302,12 @@ class Evolver:
             "override-chain", "keyword-name", "message", "enum-value", "remove-optional", "new-structure",
             # productions that once exposed a defect (kept as a standing floor)
             "message-no-typename", "rust-keyword-name", "base-regexp", "empty-struct-property", "request-no-typename",
-            "matrix", "same-name-different-nullness", "shared-registration-method", "diamond"]
+            "matrix", "same-name-different-nullness", "shared-registration-method", "diamond",
+            "message-regopts-no-params", "explicit-closed-enum"]
     RUST_AND_PYTHON_KEYWORDS = ["in", "for", "as", "if", "else", "while", "continue", "break", "return", "async", "await", "try", "yield"]
 
     MATRIX_PRODUCTIONS = ["base", "ref-struct", "ref-enum", "ref-alias", "array", "map", "tuple", "ornull-first", "ornull-last", "literal",
-                          "array-literal", "ornull-literal"]
+                          "array-literal", "ornull-literal", "array-ornull", "map-ornull"]
 
     def e_matrix(self) -> None:
         """new structures whose properties cover every pair (name kind x type production x required/optional):
@@ -375,6 +384,15 @@ class Evolver:
             return self.e_override_chain()
         if focus == "message":
             return self.e_new_message()
+        if focus == "message-regopts-no-params":
+            self.e_new_message(is_request=True, registration="own", params=False)
+            return self.e_new_message(is_request=False, registration="own", params=False)
+        if focus == "explicit-closed-enum":
+            closed = [e for e in self.doc["enumerations"] if "supportsCustomValues" not in e and e["name"] != "CompletionItemKind"]
+            for e in closed[:: max(1, len(closed) // 4)]:
+                e["supportsCustomValues"] = False
+            self.edits.append({"edit": "E6-explicit-closed", "enums": [e["name"] for e in closed[:: max(1, len(closed) // 4)]]})
+            return
         if focus == "shared-registration-method":
             self.e_new_message(is_request=True, registration="shared")
             return self.e_new_message(registration="shared")
@@ -441,6 +459,8 @@ class Evolver:
         seen = set()
         values = [x for x in values if not (x["value"] in seen or seen.add(x["value"]))]
         e = {"name": name, "type": {"kind": "base", "name": base}, "values": values}
+        if self.draw(st.integers(0, 2)) == 0:
+            e["supportsCustomValues"] = False  # the default, spelled out
         self.doc["enumerations"].append(e)
         self.new_enums.append(name)
         self.edits.append({"edit": "E3-new-enum", "name": name, "base": base, "values": [x["value"] for x in values]})
@@ -464,7 +484,7 @@ class Evolver:
         return {"kind": "reference", "name": self.pick(self.new_structs * 3 + self.base_structs)}
 
     def e_new_message(self, with_type_name: Optional[bool] = None, is_request: Optional[bool] = None,
-                      registration: Optional[str] = None) -> None:
+                      registration: Optional[str] = None, params: Optional[bool] = None) -> None:
         self.counter += 1
         word = self.pick(WORDS_L) + self.pick(WORDS_U)
         if is_request is None:
@@ -479,9 +499,9 @@ class Evolver:
             with_type_name = self.draw(st.booleans())
         if with_type_name:
             msg["typeName"] = self.fresh_type_name("Vm") + ("Request" if is_request else "Notification")
-        if self.draw(st.booleans()):
+        if params is True or (params is None and self.draw(st.booleans())):
             msg["params"] = self._struct_ref()
-        if registration == "shared" or self.draw(st.integers(0, 2)) == 0:
+        if registration in ("shared", "own") or self.draw(st.integers(0, 2)) == 0:
             pool = [s for s in self.base_structs if s.endswith("RegistrationOptions")] + self.new_structs
             used = {m.get("registrationOptions", {}).get("name") for m in self.doc["requests"] + self.doc["notifications"]
                     if m.get("registrationMethod") == "vf/sharedRegistration"}
